@@ -135,7 +135,7 @@ MonFile(specsq, refs, bare, parses) ==
   /\ \A s \in specs : (s.name = "." /\ s.path \in used) => Report("C06", s.path)
   \* C19
   /\ \A s \in specs : (s.path = "C" /\ s.name # "") => Report("C19", s.name)
-  /\ (Len(cf.preamble) > 0 /\ ~ \E s \in specs : s.path = "C") => Report("C19", "no import C")
+  /\ ((Len(cf.preamble) > 0 \/ "C" \in anons \/ "C" \in DOMAIN bound \/ "C" \in used) /\ ~ \E s \in specs : s.path = "C") => Report("C19", "no import C")
   \* ... and C.x denotes the pseudo-package: no other import of the file is called C
   /\ \A s, o \in specs : (s.path = "C" /\ o.path # "C" /\ (o.name = "C" \/ (o.name = "" /\ "C" \in EffNames(o))))
                             => Report("C19", "the name C also denotes " \o o.path)
@@ -147,7 +147,8 @@ MonFile(specsq, refs, bare, parses) ==
   /\ \A p \in DOMAIN bound :
        (bound[p] # "" /\ ~ \E s \in specs : s.path = p /\ s.name \notin {"_", "."} /\ Provides(s, bound[p]))
          => (Report("C08", "undeclared " \o p)
-             /\ (IsStd(p) => Report("C18", "a standard-library package referenced in an output produced with the File is not provided by its import block: " \o p)))
+             \* (not for a path that the user made an anonymous import afterwards: what name it has from then on is the user's doing)
+             /\ ((IsStd(p) /\ p \notin anons) => Report("C18", "a standard-library package referenced in an output produced with the File is not provided by its import block: " \o p)))
 
 RenderEv ==
   /\ IsEv("Render")
